@@ -1,4 +1,4 @@
-import ElvisVerif.Lemmas.TcpFullClean
+import ElvisVerif.Lemmas.TcpFullUna
 import ElvisVerif.Props.C01Converge
 /-!
 # C01 — convergence from (almost) any reachable state of the closed system nobody closes
@@ -61,11 +61,39 @@ theorem c01_reorder_heap_invariant (ia ib : Seq) (ma mb : U16) (simultaneous : B
   unfold leK at this
   simpa using this
 
+/-- **ESTABLISHED implies the SYN has been acknowledged**: in every reachable state a TCB in ESTABLISHED has
+    `1 ≤ SND.UNA − ISS`, i.e. `SND.UNA ≠ ISS` and no SYN waits on its retransmission queue.  (Both ways into ESTABLISHED
+    establish it — SYN-RECEIVED → ESTABLISHED moves `SND.UNA` to an ACK number with `SND.UNA < SEG.ACK`, SYN-SENT →
+    ESTABLISHED tests `mod_gt(SND.UNA, ISS)` —, afterwards `SND.UNA` moves only to ACK numbers in `[ISS + 1, SND.NXT]`;
+    `Lemmas/TcpFullUna.lean`.) -/
+theorem c01_established_syn_acked (ia ib : Seq) (ma mb : U16) (simultaneous : Bool) (sys0 s : Sys) (rs : List Res)
+    (hma : SPACE_FOR_HEADERS ≤ ma.toNat) (hmb : SPACE_FOR_HEADERS ≤ mb.toNat)
+    (h0 : Sys.run {} [.open .A ia ma, if simultaneous then .open .B ib mb else .listen .B ib mb] = .ok (sys0, rs))
+    (hrun : PlainRun sys0 s) (h31 : RoomH s) :
+    ∀ x t, (s.side x).tcb = some t → t.state = .Established →
+      1 ≤ off (issOf ia ib x) t.snd.una ∧ t.snd.una ≠ t.snd.iss ∧
+      ∀ tr ∈ t.outgoing.retransmit, tr.segment.hdr.ctl.syn = false ∧ tr.segment.text ≠ [] := by
+  intro x t ht hst
+  have hg := good_of_reach ia ib ma mb simultaneous sys0 s rs hma hmb h0 hrun h31
+  have hu : UInv (issOf ia ib) s :=
+    uinv_run (conv_init ia ib ma mb simultaneous sys0 rs h0) (ext_init ia ib ma mb simultaneous sys0 rs hma hmb h0)
+      (uinv_init ia ib ma mb simultaneous sys0 rs h0) hrun h31
+  have hne := hu.ne hg x t ht hst
+  refine ⟨hu x t ht hst, hne, fun tr htr => ?_⟩
+  have f := rtx_entry_facts hg x t ht hne tr htr
+  refine ⟨?_, f.1⟩
+  cases hs : tr.segment.hdr.ctl.syn with
+  | false => rfl
+  | true =>
+    exfalso
+    obtain ⟨v, _⟩ := (hg.tinv x t ht).rtx tr.segment (List.mem_map.2 ⟨tr, htr, rfl⟩)
+    exact f.1 (v.syn hs).2
+
 /-- **C01 convergence from a rough state** (`_partial`: the handshake must be over and the applications must have
     read what is buffered; `c01_converges_established_partial` removes the second restriction).
 
-    Starting state `s`: any reachable state (file header) in which both endpoints are ESTABLISHED with their SYN
-    acknowledged (`SND.UNA ≠ ISS`) and both receive buffers are empty.  NOTHING else is assumed: the reorder
+    Starting state `s`: any reachable state (file header) in which both endpoints are ESTABLISHED (hence their SYN
+    acknowledged: `c01_established_syn_acked`) and both receive buffers are empty.  NOTHING else is assumed: the reorder
     heaps may hold any segments parked after loss or reordering (data behind a gap, pure ACKs that overtook data,
     duplicates), the one-shot queues any ACKs not yet emitted, the retransmission queues anything — received by
     the peer or not, acknowledged or not: data and ACKs may have been lost in any number in both directions —,
@@ -84,7 +112,6 @@ theorem c01_converges_rough_partial (ia ib : Seq) (ma mb : U16) (simultaneous : 
     (h0 : Sys.run {} [.open .A ia ma, if simultaneous then .open .B ib mb else .listen .B ib mb] = .ok (sys0, rs))
     (hrun : PlainRun sys0 s) (h31 : RoomH s) (ta tb : Tcb) (hta : s.a.tcb = some ta) (htb : s.b.tcb = some tb)
     (ea : ta.state = .Established) (eb : tb.state = .Established)
-    (ua : ta.snd.una ≠ ta.snd.iss) (ub : tb.snd.una ≠ tb.snd.iss)
     (ba : ta.incoming.text = []) (bb : tb.incoming.text = [])
     (n : Nat) (wa : ta.outgoing.text.length ≤ 65535 * n) (wb : tb.outgoing.text.length ≤ 65535 * n) :
     ∃ s' ta' tb', fairRound (2 * n + 2) s = .ok s' ∧ PlainRun s s' ∧ Done s' ta' tb' ∧
@@ -98,6 +125,8 @@ theorem c01_converges_rough_partial (ia ib : Seq) (ma mb : U16) (simultaneous : 
   have hf := finv_of_reach ia ib ma mb simultaneous sys0 s rs (by omega) (by omega) h0 hrun h31
   have fa := hf.tcb .A ta hta
   have fb := hf.tcb .B tb htb
+  have ua := (c01_established_syn_acked ia ib ma mb simultaneous sys0 s rs (by omega) (by omega) h0 hrun h31 .A ta hta ea).2.1
+  have ub := (c01_established_syn_acked ia ib ma mb simultaneous sys0 s rs (by omega) (by omega) h0 hrun h31 .B tb htb eb).2.1
   have hc : Rough s ta tb :=
     ⟨hta, htb, ⟨ea, ba, ua, by rw [fa.mtu]; show 50 < ma.toNat; omega, fa.tmo⟩,
       ⟨eb, bb, ub, by rw [fb.mtu]; show 50 < mb.toNat; omega, fb.tmo⟩⟩
@@ -181,7 +210,7 @@ example : ∃ sys0 s : Sys, ∃ rs, ∃ ta tb : Tcb,
 
     Starting state `s`: any reachable state (file header: any interleaving of writes, reads, ticks, emits and
     deliveries of any history element to its addressee — loss, duplication, reordering, delay —; MTUs ≥ 100; H31) in
-    which both TCBs are ESTABLISHED with their SYN acknowledged (`SND.UNA ≠ ISS`).  NOTHING else is assumed: receive
+    which both TCBs are ESTABLISHED.  NOTHING else is assumed: receive
     buffers may be full, reorder heaps may hold anything that was parked, one-shot and retransmission queues
     anything, any amount of text may be unsent, the timers are anywhere.
 
@@ -199,7 +228,6 @@ theorem c01_converges_established_partial (ia ib : Seq) (ma mb : U16) (simultane
     (h0 : Sys.run {} [.open .A ia ma, if simultaneous then .open .B ib mb else .listen .B ib mb] = .ok (sys0, rs))
     (hrun : PlainRun sys0 s) (h31 : RoomH s) (ta tb : Tcb) (hta : s.a.tcb = some ta) (htb : s.b.tcb = some tb)
     (ea : ta.state = .Established) (eb : tb.state = .Established)
-    (ua : ta.snd.una ≠ ta.snd.iss) (ub : tb.snd.una ≠ tb.snd.iss)
     (n : Nat) (wa : ta.outgoing.text.length ≤ 65535 * n) (wb : tb.outgoing.text.length ≤ 65535 * n) :
     ∃ s1 s' ta' tb', fairRound 1 s = .ok s1 ∧ fairRound (2 * n + 2) s1 = .ok s' ∧
       ([1, 2 * n + 2].foldlM (fun st k => fairRound k st) s = .ok s') ∧ PlainRun s s' ∧ Done s' ta' tb' ∧
@@ -216,6 +244,8 @@ theorem c01_converges_established_partial (ia ib : Seq) (ma mb : U16) (simultane
     cases x
     · show 50 < ma.toNat; omega
     · show 50 < mb.toNat; omega
+  have ua := (c01_established_syn_acked ia ib ma mb simultaneous sys0 s rs (by omega) (by omega) h0 hrun h31 .A ta hta ea).2.1
+  have ub := (c01_established_syn_acked ia ib ma mb simultaneous sys0 s rs (by omega) (by omega) h0 hrun h31 .B tb htb eb).2.1
   obtain ⟨s1, ta1, tb1, hf1, hr1, hg1, hc1, la, lb⟩ := cleanup_round s hg hf hm _ _
     ⟨ta, hta, ea, ua, Nat.le_refl _⟩ ⟨tb, htb, eb, ub, Nat.le_refl _⟩
   have hfi1 : FInv (issOf ia ib) (mtuOf ma mb) s1 := finv_run hg.conv hg.ext hf hr1 hg1.room
@@ -235,25 +265,23 @@ theorem c01_converges_established_bound_partial (ia ib : Seq) (ma mb : U16) (sim
     (h0 : Sys.run {} [.open .A ia ma, if simultaneous then .open .B ib mb else .listen .B ib mb] = .ok (sys0, rs))
     (hrun : PlainRun sys0 s) (h31 : RoomH s) (ta tb : Tcb) (hta : s.a.tcb = some ta) (htb : s.b.tcb = some tb)
     (ea : ta.state = .Established) (eb : tb.state = .Established)
-    (ua : ta.snd.una ≠ ta.snd.iss) (ub : tb.snd.una ≠ tb.snd.iss) :
+    :
     ∃ s' ta' tb',
       ([1, 2 * ((max ta.outgoing.text.length tb.outgoing.text.length + 65534) / 65535) + 2].foldlM
         (fun st k => fairRound k st) s = .ok s') ∧ Done s' ta' tb' ∧
       s'.b.delivered = s'.a.submitted ∧ s'.a.delivered = s'.b.submitted := by
   obtain ⟨_, s', ta', tb', _, _, hfold, _, hd, d1, d2, _⟩ := c01_converges_established_partial ia ib ma mb simultaneous
-    sys0 s rs hma hmb h0 hrun h31 ta tb hta htb ea eb ua ub
+    sys0 s rs hma hmb h0 hrun h31 ta tb hta htb ea eb
     ((max ta.outgoing.text.length tb.outgoing.text.length + 65534) / 65535) (by omega) (by omega)
   exact ⟨s', ta', tb', hfold, hd, d1, d2⟩
 
 /-- **(f), NOT proved: the handshake after loss.**  From every reachable state some fair rounds (SYN / SYN-ACK
     retransmission: every tick of a fair round flags the SYN on the retransmission queue, the next phase re-sends
-    and delivers it) lead — by plain ops, within H31 — to a state in which both endpoints are ESTABLISHED with
-    their SYN acknowledged.  The loss-free handshake is `handshake_steady` (`Props/C01FromOpen.lean`).  Missing: the
+    and delivers it) lead — by plain ops, within H31 — to a state in which both endpoints are ESTABLISHED.
+    The loss-free handshake is `handshake_steady` (`Props/C01FromOpen.lean`).  Missing: the
     case analysis over the reachable pre-ESTABLISHED pairs (SYN-SENT / no TCB + LISTEN, SYN-SENT / SYN-RECEIVED,
     ESTABLISHED / SYN-RECEIVED, SYN-SENT / SYN-SENT, SYN-RECEIVED / SYN-RECEIVED, …) with arbitrary reorder heaps —
-    in SYN-SENT the heap gate is off and `segment_arrives` processes everything parked; and the invariant
-    "ESTABLISHED ⇒ SND.UNA ≠ ISS" (true: both ways into ESTABLISHED move or test SND.UNA; `Early` has only the converse
-    for SYN-RECEIVED), which would remove the hypotheses `ua`, `ub` of `c01_converges_established_partial`. -/
+    in SYN-SENT the heap gate is off and `segment_arrives` processes everything parked. -/
 def C01HandshakeAfterLossStatement : Prop :=
   ∀ (ia ib : Seq) (ma mb : U16) (simultaneous : Bool) (sys0 s : Sys) (rs : List Res),
     100 ≤ ma.toNat → 100 ≤ mb.toNat →
@@ -261,8 +289,7 @@ def C01HandshakeAfterLossStatement : Prop :=
     PlainRun sys0 s → RoomH s →
     ∃ (rounds : List Nat) (s1 : Sys) (ta tb : Tcb),
       (rounds.foldlM (fun st k => fairRound k st) s = .ok s1) ∧ PlainRun s s1 ∧ RoomH s1 ∧
-      s1.a.tcb = some ta ∧ s1.b.tcb = some tb ∧ ta.state = .Established ∧ tb.state = .Established ∧
-      ta.snd.una ≠ ta.snd.iss ∧ tb.snd.una ≠ tb.snd.iss
+      s1.a.tcb = some ta ∧ s1.b.tcb = some tb ∧ ta.state = .Established ∧ tb.state = .Established
 
 theorem foldlM_fairRound_append (r1 r2 : List Nat) (s s1 : Sys)
     (h1 : r1.foldlM (fun st k => fairRound k st) s = .ok s1) :
@@ -274,10 +301,10 @@ theorem foldlM_fairRound_append (r1 r2 : List Nat) (s s1 : Sys)
     some fair rounds end `Done`) follows from the handshake after loss alone -/
 theorem c01_converges_full_of_handshake (h : C01HandshakeAfterLossStatement) : C01ConvergesFullStatement := by
   intro ia ib ma mb simultaneous sys0 s rs hma hmb h0 hrun h31
-  obtain ⟨rounds, s1, ta, tb, hfold, hr1, h31', hta, htb, ea, eb, ua, ub⟩ :=
+  obtain ⟨rounds, s1, ta, tb, hfold, hr1, h31', hta, htb, ea, eb⟩ :=
     h ia ib ma mb simultaneous sys0 s rs hma hmb h0 hrun h31
   obtain ⟨s', ta', tb', hf, hd, _⟩ := c01_converges_established_bound_partial ia ib ma mb simultaneous sys0 s1 rs hma hmb
-    h0 (hrun.trans hr1) h31' ta tb hta htb ea eb ua ub
+    h0 (hrun.trans hr1) h31' ta tb hta htb ea eb
   exact ⟨rounds ++ [1, 2 * ((max ta.outgoing.text.length tb.outgoing.text.length + 65534) / 65535) + 2], s', ta', tb',
     by rw [foldlM_fairRound_append _ _ _ _ hfold]; exact hf, hd⟩
 
